@@ -254,6 +254,32 @@ Fixpoint enc_solve (fuel : nat) (st : estate) (tr : list lit) (evs : list sev) :
   | STrail e :: t => enc_solve fuel st (trail_step tr e) t
   end.
 
+(* the trail the events leave behind *)
+Fixpoint final_trail (tr : list lit) (evs : list sev) : list lit :=
+  match evs with
+  | [] => tr
+  | STrail e :: t => final_trail (trail_step tr e) t
+  | _ :: t => final_trail tr t
+  end.
+
+(* the solver asks the encoder only for variables it has assigned true *)
+Definition is_true (tr : list lit) (so : option N) : bool :=
+  existsb (lit_eqb (so_var so, true)) tr.
+Fixpoint req_true_ok (tr : list lit) (evs : list sev) : bool :=
+  match evs with
+  | [] => true
+  | SEncode sos :: t => forallb (is_true tr) sos && req_true_ok tr t
+  | SSoft _ :: t => req_true_ok tr t
+  | STrail e :: t => req_true_ok (trail_step tr e) t
+  end.
+
+(* when the solver announces a solution: the root and every selected solvable
+   were encoded, and so was the package of every selected solvable that is not
+   an exempt (directly requested soft) one *)
+Definition enc_final_ok (st : estate) (S ex : list N) : bool :=
+  mem_so None (e_sols st) &&
+  forallb (fun s => mem_so (Some s) (e_sols st) && (memN s ex || memN (p_sol_name U s) (e_pkgs st))) S.
+
 End Enc.
 
 (* ---------- correspondence check: the implementation's clause database and
@@ -305,4 +331,16 @@ Definition check_encoder (U : provider) (P : problem) (fuel : nat) (evs : list s
   match enc_solve U P fuel (estate0 cache0) [] evs with
   | Some st => (cls_same (encoder_clauses db) (e_db st), pcalls_eqb calls (e_calls st))
   | None => (false, false)
+  end.
+
+(* for a run that ended with a solution: requests only for true variables, the
+   events leave the dumped trail, everything selected was encoded *)
+Definition check_encoder_final (U : provider) (P : problem) (fuel : nat) (evs : list sev)
+           (trail : list lit) : bool * bool * bool :=
+  match enc_solve U P fuel (estate0 cache0) [] evs with
+  | Some st =>
+      let tr := final_trail [] evs in
+      (req_true_ok [] evs, lits_eqb (rev tr) trail,
+       enc_final_ok U st (sel_of tr) (exempt P (sel_of tr)))
+  | None => (false, false, false)
   end.
